@@ -21,7 +21,7 @@ def size_bucket(n):
     return ">1000"
 
 
-def write(pid, tier, seed, prop, us, oc, coq, violations, known_lines, wall, extra):
+def write(pid, tier, seed, prop, us, oc, coq, violations, known_lines, wall, extra, cum=None):
     fam = collections.Counter(u.get("family", u["kind"]) for u in us)
     kinds = collections.Counter(u["kind"] for u in us)
     sizes = collections.Counter(size_bucket(len(u["params"].get("vals", u["params"].get("sums", u["params"].get("items", []))))) for u in us)
@@ -70,6 +70,15 @@ def write(pid, tier, seed, prop, us, oc, coq, violations, known_lines, wall, ext
         "wall_s": round(wall, 2),
         "violations": len(violations),
     }
+    if cum and cum.get("rounds", 1) > 1:
+        # thorough tier: several rounds with fresh sub-seeds; samples/ports/histograms above describe the LAST round, these the whole run
+        data["coverage"]["rounds"] = cum["rounds"]
+        data["coverage"]["evaluations"] = cum["evaluations"]
+        data["coverage"]["distinct_nontrivial"] = len(cum["nontrivial"])
+        data["coverage"]["families"] = cum["families"]
+        data["coverage"]["correspondence_disagreements"] = cum["mismatch"]
+        data["coverage"]["judged_failures"] = cum["judged"]
+        data["coverage"]["vm_compute_cross_checked_total"] = cum["vm_checked"]
     if hasattr(prop, "extra_evidence"):
         data["coverage"].update(prop.extra_evidence())
     # evidence/ describes runs against /repo itself; runs against another tree (PRTPY_REPO, used for seeded changes) go elsewhere
